@@ -575,7 +575,7 @@ def next_end_tokens(state: TokenizerState, pending: bool) -> Iterator[TokenInfo]
             "",
             (state.lnum - 1, len(state.last_line)),
             (state.lnum - 1, len(state.last_line) + 1),
-            "",
+            state.last_line,
         )
     for _ in state.indents[1:]:  # pop remaining indent levels
         yield TokenInfo(Token.DEDENT, "", (state.lnum, 0), (state.lnum, 0), "")
